@@ -30,6 +30,7 @@ BodyMedia(b) ==
     [] b = "badschema" -> << <<"application/json", "bad">> >>
     [] b = "json+badschema" -> << <<"application/vnd.x+json", "bad">>, <<"application/json", "json">> >>
     [] b = "noschema" -> << <<"application/json", "bad">> >>
+    [] b = "json+mpjson" -> << <<"application/json", "json">>, <<"application/merge-patch+json", "json">> >>     \* two media types of one kind
     [] b = "ref" -> << <<"application/json", "json">> >>
     [] b = "refchain" -> << <<"application/json", "json">> >>
     [] OTHER -> <<>>                                  \* refcycle, refdangling: resolved before any media type
